@@ -68,7 +68,8 @@ def log_kwargs(log, workdir):
         if log.get(key):
             kw[name] = log[key]
     if log.get("path"):
-        path = os.path.join(workdir, "logs")
+        # (a relative path is relative to the directory current when the logs are configured - the scratch directory)
+        path = os.path.join(workdir, "logs") if not log.get("relative") else "logs"
         if log.get("dir") in ("empty", "nonempty"):
             os.makedirs(path, exist_ok=True)
             if log["dir"] == "nonempty":
@@ -300,6 +301,10 @@ def _run_config(model_name, cfg, seed, workdir, n_ind=6, want_params=False, comp
                 lkw = log_kwargs(log, workdir)
                 if lkw:
                     settings.set_logs(**lkw)
+                if log.get("relative"):
+                    # the caller moves to another directory between configuring the logs and running
+                    os.makedirs(os.path.join(workdir, "elsewhere"), exist_ok=True)
+                    os.chdir(os.path.join(workdir, "elsewhere"))
                 if cfg.get("pilot_n"):
                     # the settings object first serves a pilot run with another number of iterations, then the caller changes
                     # n_iter on the same object: the run under observation is configured by the settings as they now read
@@ -338,7 +343,14 @@ def _run_config(model_name, cfg, seed, workdir, n_ind=6, want_params=False, comp
                     ev0.update(outcome="run", nb=int(algo.algo_parameters["n_burn_in_iter"]),
                                na=int((algo.algo_parameters.get("annealing") or {}).get("n_iter") or 0))
                     events.append(ev0)
-                    algo.run(model, dataset)
+                    if cfg.get("dtype64"):
+                        # process history: somebody switched torch's default dtype before this run
+                        torch.set_default_dtype(torch.float64)
+                    try:
+                        algo.run(model, dataset)
+                    finally:
+                        if cfg.get("dtype64"):
+                            torch.set_default_dtype(torch.float32)
                     same = True
                     if compare_to is not None:
                         cur = {k: np.asarray(v) for k, v in model.parameters.items()}
